@@ -136,6 +136,9 @@ type database struct {
 
 	// tracks any outstanding updates while waiting for a monitor response
 	deferUpdates    bool
+	// monitorSetUp is true while updates are deferred because a monitor is
+	// being added on an established connection (protected by cacheMutex)
+	monitorSetUp bool
 	deferredUpdates []*bufferedUpdate
 }
 
@@ -835,8 +838,32 @@ func (o *ovsdbClient) Transact(ctx context.Context, operation ...ovsdb.Operation
 			return nil, ErrNotConnected
 		}
 	}
-	defer o.rpcMutex.RUnlock()
-	return o.transact(ctx, o.primaryDBName, false, operation...)
+	reply, err := o.transact(ctx, o.primaryDBName, false, operation...)
+	o.rpcMutex.RUnlock()
+	if err == nil {
+		// the update of this transaction may have been deferred because a
+		// monitor is being added: its effects are in the cache on return
+		o.awaitMonitorSetUp(ctx, o.primaryDB())
+	}
+	return reply, err
+}
+
+// awaitMonitorSetUp waits, as long as the context allows, until the updates
+// deferred while a monitor is being added have been applied to the cache
+func (o *ovsdbClient) awaitMonitorSetUp(ctx context.Context, db *database) {
+	for {
+		db.cacheMutex.RLock()
+		waiting := db.monitorSetUp
+		db.cacheMutex.RUnlock()
+		if !waiting {
+			return
+		}
+		select {
+		case <-ctx.Done():
+			return
+		case <-time.After(5 * time.Millisecond):
+		}
+	}
 }
 
 func (o *ovsdbClient) transact(ctx context.Context, dbName string, skipChWrite bool, operation ...ovsdb.Operation) ([]ovsdb.OperationResult, error) {
@@ -1017,6 +1044,7 @@ func (o *ovsdbClient) monitor(ctx context.Context, cookie MonitorCookie, reconne
 	db.cacheMutex.Lock()
 	deferring := !db.deferUpdates
 	db.deferUpdates = true
+	db.monitorSetUp = db.monitorSetUp || deferring
 	db.cacheMutex.Unlock()
 	if deferring {
 		defer func() {
@@ -1114,6 +1142,7 @@ func (o *ovsdbClient) monitor(ctx context.Context, cookie MonitorCookie, reconne
 // far. Must be called with a lock on monitorsMutex and on cacheMutex.
 func (o *ovsdbClient) applyDeferredUpdates(db *database) error {
 	db.deferUpdates = false
+	db.monitorSetUp = false
 	deferred := db.deferredUpdates
 	// clear deferred updates for next time
 	db.deferredUpdates = make([]*bufferedUpdate, 0)
